@@ -6,7 +6,9 @@ package fixturebad
 
 import (
 	"bytes"
+	"net"
 	"sync"
+	"time"
 )
 
 var pool = sync.Pool{New: func() interface{} { return new(bytes.Buffer) }}
@@ -80,4 +82,10 @@ func CloseAll(items []interface{}) {
 			}
 		}()
 	}
+}
+
+// DialWithDeadline fixes an absolute deadline in a long-lived dialer:
+// dialer-no-absolute-deadline must fire.
+func DialWithDeadline() *net.Dialer {
+	return &net.Dialer{Deadline: time.Now().Add(30 * time.Second), KeepAlive: 30 * time.Second}
 }
